@@ -129,14 +129,35 @@ func StopEngine(stop func(), d time.Duration) bool {
 	}
 }
 
-// WaitUntil polls cond until it is true or the duration has passed.
+// Experienced time: the time this process has verifiably been running, counted in 10 ms ticks that were
+// delivered to a goroutine of its own. A process that is stopped (a snapshot of the whole machine was observed to
+// freeze everything for about a minute) or starved does not accumulate it, so a time-out measured with it says
+// "this much time was available to the code and it still had not happened" - which is what the checks mean. On a
+// machine that is not starved it runs at wall-clock speed.
+var expTicks int64
+
+func init() {
+	go func() {
+		t := time.NewTicker(10 * time.Millisecond)
+		for range t.C {
+			atomic.AddInt64(&expTicks, 1)
+		}
+	}()
+}
+
+// Experienced returns the experienced time since the process started.
+func Experienced() time.Duration {
+	return time.Duration(atomic.LoadInt64(&expTicks)) * 10 * time.Millisecond
+}
+
+// WaitUntil polls cond until it is true or the duration has passed (in experienced time).
 func WaitUntil(d time.Duration, cond func() bool) bool {
-	deadline := time.Now().Add(d)
+	start := Experienced()
 	for {
 		if cond() {
 			return true
 		}
-		if time.Now().After(deadline) {
+		if Experienced()-start > d {
 			return cond()
 		}
 		time.Sleep(200 * time.Microsecond)
@@ -147,14 +168,14 @@ func WaitUntil(d time.Duration, cond func() bool) bool {
 // the idle duration (a slow run is not a stuck run).
 func WaitProgress(idle time.Duration, done func() bool, progress func() int64) bool {
 	last := progress()
-	lastAt := time.Now()
+	lastAt := Experienced()
 	for {
 		if done() {
 			return true
 		}
 		if p := progress(); p != last {
-			last, lastAt = p, time.Now()
-		} else if time.Since(lastAt) > idle {
+			last, lastAt = p, Experienced()
+		} else if Experienced()-lastAt > idle {
 			return done()
 		}
 		time.Sleep(200 * time.Microsecond)
